@@ -98,17 +98,20 @@ Print Assumptions C10_reader_accepts_conformant.
 (* READER, whole sets by ANY conformant writer ([s1_set_valid]: any comment, entries not saved in the parity set
    anywhere among the saved ones, any status bits): with the saved files present Verify counts nothing unusable
    and Repair rewrites nothing; with any saved files missing, at most as many as there are volumes, Repair
-   succeeds and writes exactly the missing files with their original bytes. *)
+   succeeds and writes exactly the missing files with their original bytes.
+   The PAR 1.0 limit of 256 concerns the shards - the files SAVED in the parity set plus the parity volumes: the
+   loader looks at the volumes 1 .. min (256 - number of saved entries) 99; entries that are not saved do not count
+   (C10_many_unsaved_entries_example: 254 non-saved entries, 2 saved files, 1 volume). *)
 Theorem C10_verify_conformant_set : forall md5, (forall x, length (md5 x) = 16%nat) ->
   forall ix files comment nvol outs fs all,
   str_eqb (ext ix) EXT_PAR = true -> s1_set_valid md5 files comment nvol outs = true ->
   forallb (s1_contiguous md5) outs = true -> Forall (fun o : bytes => N.of_nat (length o) < 2^64) outs ->
   Forall (fun f => sf_name f <> []) files ->
   let sd := s1_saved_datas files in Forall wf_bytes sd -> max_len sd <> 0%nat ->
-  (1 <= nvol <= maxvol files)%nat ->
+  (1 <= nvol <= N.to_nat (N.min (256 - N.of_nat (length (filter sf_saved files))) 99))%nat ->
   fs_lookup fs ix = Some (nth 0 outs []) ->
   (forall k, (1 <= k <= nvol)%nat -> fs_lookup fs (volume_path ix (N.of_nat k)) = Some (nth k outs [])) ->
-  (forall k, (nvol < k <= maxvol files)%nat -> read_res fs (volume_path ix (N.of_nat k)) = Err ENotExist) ->
+  (forall k, (nvol < k <= N.to_nat (N.min (256 - N.of_nat (length (filter sf_saved files))) 99))%nat -> read_res fs (volume_path ix (N.of_nat k)) = Err ENotExist) ->
   (forall f, In f files -> sf_saved f = true ->
      base (sf_name f) = sf_name f /\ fs_lookup fs (join2 (dir ix) (sf_name f)) = Some (sf_data f)) ->
   (exists c st, par1_verify md5 ix all (io_init fs []) = (Ok (c, all), st) /\
@@ -116,6 +119,19 @@ Theorem C10_verify_conformant_set : forall md5, (forall x, length (md5 x) = 16%n
   (forall dbl r rp st', par1_repair md5 ix dbl (io_init fs []) = ((r, rp), st') -> rp = [] /\ io_fs st' = fs).
 Proof. exact par1_verify_conformant_set. Qed.
 Print Assumptions C10_verify_conformant_set.
+
+(* non-vacuity with MANY entries that are not saved in the set: a hand-made conformant set of 256 entries - 2 saved
+   files, 254 non-saved entries - and 1 volume satisfies the premises of C10_verify_conformant_set (stand-in digest
+   mu_md5): Verify is clean, Repair rewrites nothing.  Counting all entries against the limit (the loader before the
+   fix) made Verify and Repair fail with "too many files". *)
+Example C10_many_unsaved_entries_example : forall all,
+  (length Par1SpecManyUnsaved.mu_files = 256%nat /\ length (filter sf_saved Par1SpecManyUnsaved.mu_files) = 2%nat) /\
+  (exists c st, par1_verify Par1SpecManyUnsaved.mu_md5 Par1SpecManyUnsaved.mu_ix all (io_init Par1SpecManyUnsaved.mu_fs []) = (Ok (c, all), st) /\
+     fc_unusable c = 0%nat /\ fc_punusable c = 0%nat /\ fc_usable c = 2%nat /\ fc_pusable c = 1%nat) /\
+  (forall dbl r rp st', par1_repair Par1SpecManyUnsaved.mu_md5 Par1SpecManyUnsaved.mu_ix dbl (io_init Par1SpecManyUnsaved.mu_fs []) = ((r, rp), st') ->
+     rp = [] /\ io_fs st' = Par1SpecManyUnsaved.mu_fs).
+Proof. exact Par1SpecManyUnsaved.many_unsaved_entries_example. Qed.
+Print Assumptions C10_many_unsaved_entries_example.
 
 Theorem C10_repair_conformant_set : forall md5, (forall x, length (md5 x) = 16%nat) ->
   forall ix files comment nvol outs fs (kept : s1file -> bool) dbl r rp st',
@@ -127,10 +143,10 @@ Theorem C10_repair_conformant_set : forall md5, (forall x, length (md5 x) = 16%n
   let sfiles := filter sf_saved files in
   let sd := s1_saved_datas files in
   Forall wf_bytes sd -> max_len sd <> 0%nat ->
-  (1 <= nvol <= maxvol files)%nat ->
+  (1 <= nvol <= N.to_nat (N.min (256 - N.of_nat (length (filter sf_saved files))) 99))%nat ->
   fs_lookup fs ix = Some (nth 0 outs []) ->
   (forall k, (1 <= k <= nvol)%nat -> fs_lookup fs (volume_path ix (N.of_nat k)) = Some (nth k outs [])) ->
-  (forall k, (nvol < k <= maxvol files)%nat -> read_res fs (volume_path ix (N.of_nat k)) = Err ENotExist) ->
+  (forall k, (nvol < k <= N.to_nat (N.min (256 - N.of_nat (length (filter sf_saved files))) 99))%nat -> read_res fs (volume_path ix (N.of_nat k)) = Err ENotExist) ->
   (forall f, In f files -> sf_saved f = true ->
      base (sf_name f) = sf_name f /\
      if kept f then fs_lookup fs (fpath ix f) = Some (sf_data f) else read_res fs (fpath ix f) = Err ENotExist) ->
